@@ -24,7 +24,7 @@ import (
 // layer delivers (c14dec).
 func TestVerif_C14_containers_e2e(t *testing.T) {
 	s := verifh.New(t, "C14", "containers_e2e",
-		"bodies ENCODED BY THE MODEL (gzip members x header fields x block structure x 0..3 members; stored DEFLATE; zlib wrapper) - intact, cut inside a member, message shorter than its Content-Length (at a member boundary / inside), 1-9 stray bytes, >=10 garbage bytes, bare second header, bit flips by region, wrong CRC/ISIZE, over-long FNAME, trailing bytes after raw DEFLATE, zlib / gzip under `deflate`, empty body - x {h1, h2, h3} x {Content-Length, streamed} x decoding configuration {transport-requested gzip, AutoDecompress, caller Accept-Encoding + AutoDecompress, DisableCompression + AutoDecompress} x 1-4 cycling Read sizes from {0, 1, 2, 3, 7, 13, 16, 97, 100, 512, 4096, 65536, 200003}; answer = bytes + final error class the caller reads from Response.Body, compared with the model decoder (c14dec) on the bytes the framing layer delivers; oracle as in lane containers; non-trivial = decoded")
+		"bodies ENCODED BY THE MODEL (gzip members x header fields x block structure x 0..3 members; stored DEFLATE; zlib wrapper; zstd frames x header layouts x raw blocks x skippable frames x 0..3 frames) - intact, cut inside a member, message shorter than its Content-Length (at a member boundary / inside), 1-9 stray bytes, >=10 garbage bytes, bare second header, bit flips by region, wrong CRC/ISIZE, over-long FNAME, trailing bytes after raw DEFLATE, zlib / gzip under `deflate`, empty body - x {h1, h2, h3} x {Content-Length, streamed} x decoding configuration {transport-requested gzip, AutoDecompress, caller Accept-Encoding + AutoDecompress, DisableCompression + AutoDecompress} x 1-4 cycling Read sizes from {0, 1, 2, 3, 7, 13, 16, 97, 100, 512, 4096, 65536, 200003}; answer = bytes + final error class the caller reads from Response.Body, compared with the model decoder (c14dec) on the bytes the framing layer delivers; oracle as in lane containers; non-trivial = decoded")
 	e := c14NewEnv(t, "h1", "h2", "h3")
 	defer e.close()
 	r := s.Rand()
@@ -34,6 +34,11 @@ func TestVerif_C14_containers_e2e(t *testing.T) {
 	if err != nil {
 		t.Fatalf("infra: model encoder: %v", err)
 	}
+	zs, err := verifc14.GenZStreams(r, verifh.N(200, 8000), verifh.N(2, 20))
+	if err != nil {
+		t.Fatalf("infra: model encoder: %v", err)
+	}
+	streams = append(streams, zs...)
 	type run struct {
 		c    *c14Case
 		st   verifc14.FStream
@@ -138,11 +143,18 @@ func TestVerif_C14_containers_e2e(t *testing.T) {
 			continue
 		}
 		count("model-judged")
-		s.Case(x.line, impl, ok, "", true, human)
+		class := ""
+		if st.Fmt == "zstd" && c.stream == "short" && o.term == "eof" {
+			if _, _, rt := verifc14.Ref("zstd", st.Wire, io.ErrUnexpectedEOF); rt == "eof" {
+				class = "zstd-source-error-at-frame-boundary" // permanent: the library turns the framing error into io.EOF there
+			}
+		}
+		s.Case(x.line, impl, ok, class, true, human)
 	}
 	need := []string{"h1", "h2", "h3", "model-judged", "framing:cl", "framing:stream", "short", "end:eof", "end:err1", "end:err2",
 		"cfg:dc=false,auto=false,ae=false", "cfg:dc=false,auto=true,ae=false", "cfg:dc=false,auto=true,ae=true", "cfg:dc=true,auto=true,ae=false",
-		"gzip:valid", "gzip:multi", "gzip:trunc", "gzip:stray", "gzip:garbage", "gzip:flip", "gzip:flip-trailer", "deflate:valid", "deflate:trail", "deflate:zlib", "deflate:gzip"}
+		"gzip:valid", "gzip:multi", "gzip:trunc", "gzip:stray", "gzip:garbage", "gzip:flip", "gzip:flip-trailer", "deflate:valid", "deflate:trail", "deflate:zlib", "deflate:gzip",
+		"zstd:valid", "zstd:multi", "zstd:skip", "zstd:trunc", "zstd:flip-sum", "zstd:fcs-wrong", "zstd:garbage"}
 	for _, k := range need {
 		if hist[k] == 0 {
 			t.Errorf("bucket %s not reached", k)
